@@ -112,8 +112,11 @@ package dnsserver
 //@ extern github.com/hashicorp/golang-lru Cache.Get
 //@ pure
 //@ ensures ok ==> value != nil && dyntype(value) == typetag("dnsserver.cacheEntry") && unbox(value, "dnsserver.cacheEntry").response != nil
+// cached[m] != 0: message m is (or was) stored in the response cache
+//@ ghostvar cached seq
 //@ extern github.com/hashicorp/golang-lru Cache.Add
-//@ pure
+//@ updates cached
+//@ ensures cached == upd(old(cached), unbox(value, "dnsserver.cacheEntry").response, 1)
 //@ extern github.com/hashicorp/golang-lru Cache.Remove
 //@ pure
 
@@ -141,9 +144,10 @@ package dnsserver
 
 // ---- the query handler's decision skeleton (C01, C10, C12, C13, C19) -----------------------------------
 //@ func FBDNSDB.ServeDNSWithRCODE
-//@ updates cnt, nlogged, lastLogged, loggedAt, nlogfailed, nwritten, lastWritten, writtenAt, mut, closes
+//@ updates cnt, nlogged, lastLogged, loggedAt, nlogfailed, nwritten, lastWritten, writtenAt, mut, closes, cached
 //@ flag skip frame
 //@ requires h.logger != nil && h.stats != nil && w != nil && r != nil
+//@ requires freshzero(cached)
 //@ requires h.cacheConfig.Enabled ==> h.lru != nil
 //@ requires h.dnsdb != nil ==> dbInv(h.dnsdb) && closes[h.dnsdb.dbi] == 0 && h.dnsdb.refCount < 1000000000
 //@ ensures[queries] cnt["DNS_queries"] == old(cnt)["DNS_queries"] + 1
@@ -155,6 +159,8 @@ package dnsserver
 //@ before FBDNSDB.writeAndLog#3 assert[shape] a != nil && a.Id == r.Id && a.Response
 //@ before FBDNSDB.writeAndLog#3 assert[auth] a.Authoritative == auth
 //@ before FBDNSDB.writeAndLog#3 assert[rcode] a.Rcode == dns.RcodeSuccess || (a.Rcode == dns.RcodeNameError && auth && len(a.Answer) == 0)
+//@ before FBDNSDB.writeAndLog#3 assert[notcached] cached[a] == 0
+//@ before FBDNSDB.writeAndLog#1 assert[hit-notcached] cached[resp] == 0
 //@ before FBDNSDB.writeAndLog#3 assert[opt] (uf.edns0of(r) != nil) == (o != nil)
 //@ before FBDNSDB.writeAndLog#3 assert[ecs] o != nil ==> len(o.Option) == ite(ecs != nil, 1, 0)
 //@ before FBDNSDB.writeAndLog#3 assert[ecsobj] ecs == nil || ecs == uf.ecsof(r)
